@@ -262,8 +262,12 @@ def result_si(res):
     return si_float(res)
 
 
-def numeric(expr, env, prec=30):
+PREC = [30]
+
+
+def numeric(expr, env, prec=None):
     """Evaluate a closed form at SI values (constants at their SI values)."""
+    prec = prec or PREC[0]
     from symplyphysics import convert_to_si  # pylint: disable=import-outside-toplevel
     e = sympy.sympify(expr)
     rep = {s: sympy.Float(v, prec) if isinstance(v, float) else sympy.sympify(v) for s, v in env.items()}
